@@ -330,6 +330,7 @@ func (e *Exec) lock(recvExpr ast.Expr, c *Ctx, call *ast.CallExpr) {
 		e.advanceTime(st, "0")
 	}
 	e.monitorInv(m, owner, st, c.fr, false, "")
+	e.lockSnap = st.clone()
 }
 
 func (e *Exec) unlock(recvExpr ast.Expr, c *Ctx, call *ast.CallExpr) {
@@ -681,6 +682,9 @@ func (e *Exec) contractEffects(ct *Contract, fn *types.Func, sig *types.Signatur
 		for i := 0; i < sig.Params().Len(); i++ {
 			args = append(args, Term{"0", e.prog.TypeOf(sig.Params().At(i).Type(), nil)})
 		}
+	}
+	if ct.Kind == "func" && !ct.HasMod {
+		ef.all = true
 	}
 	bound, cfr := e.contractScope(ct, fn, sig, recv, args)
 	scratch := &State{pc: "true", vars: map[string]Term{}}
